@@ -1208,7 +1208,8 @@ class LineCoverageInstrumentation(transformer.LineCoverageInstrumentationAdapter
         Returns:
             True if the line should be instrumented, False otherwise.
         """
-        return instr.lineno != lineno
+        # Some instructions have no line, e.g., the prologue of a generator expression
+        return isinstance(instr.lineno, int) and instr.lineno != lineno
 
     def visit_node(  # noqa: D102
         self,
@@ -1287,7 +1288,8 @@ class CheckedCoverageInstrumentation(transformer.CheckedCoverageInstrumentationA
         Returns:
             True if the line should be instrumented, False otherwise.
         """
-        return instr.lineno != lineno
+        # Some instructions have no line, e.g., the prologue of a generator expression
+        return isinstance(instr.lineno, int) and instr.lineno != lineno
 
     def visit_node(  # noqa: D102
         self,
